@@ -1417,6 +1417,27 @@ def rgb_of(info):
     return ((info.packed >> 16) & 255, (info.packed >> 8) & 255, info.packed & 255)
 
 
+def wcag_luminance(r, g, b):
+    def lin(c):
+        c = c / 255.0
+        return c / 12.92 if c <= 0.04045 else ((c + 0.055) / 1.055) ** 2.4
+    return 0.2126 * lin(r) + 0.7152 * lin(g) + 0.0722 * lin(b)
+
+
+def near_breakeven_texts(rnd, n):
+    """Colours whose luminance is within 0.004 of the value where black and white text contrast equally
+    (sqrt(1.05 * 0.05) - 0.05 = 0.17913): where a text-colour rule can go wrong."""
+    out = []
+    while len(out) < n:
+        r, g, b = rnd.randrange(256), rnd.randrange(256), rnd.randrange(256)
+        # steer one channel so that the luminance lands near the break-even value
+        for gg in range(256):
+            if abs(wcag_luminance(r, gg, b) - 0.17913) < 0.004:
+                out.append("#%02x%02x%02x" % (r, gg, b))
+                break
+    return out
+
+
 def near_gray_texts(rnd, n):
     out = []
     for _ in range(n):
@@ -1436,6 +1457,7 @@ def c09(res, tier, seed, lib):
     n = 60 if tier != "thorough" else 1200
     texts = near_gray_texts(rnd, n) + [rand_color_text(rnd) for _ in range(n)] + ["#%02x%02x%02x" % (g, g, g) for g in range(0, 256, 5 if tier != "thorough" else 1)]
     texts += ["rgba(128,129,128,0.5)", "hsl(200,1%,50%)", "hsl(10,0.4%,30%)"]
+    texts += near_breakeven_texts(rnd, 150 if tier != "thorough" else 3000)
     inf = infos(texts)
     rc, out, err = run_cli(["to-gray"] + texts)
     lines = out.decode().split("\n")[:-1]
@@ -1476,6 +1498,14 @@ def c09(res, tier, seed, lib):
                 lum = i.keys["luminance"] / 1000.0
                 ratio = (lum + 0.05) / 0.05 if ln == "hsl(0,0.0%,0.0%)" else 1.05 / (lum + 0.001 + 0.05)
                 res.check(ratio >= 4.5, "textcolor-contrast-4.5", "cli:textcolor", inp, "luminance %.3f, text %s, contrast about %.2f" % (lum, ln, ratio))
+                # the same two clauses with the luminance computed here from the 8-bit channels (WCAG formula written
+                # out): at least 4.5:1, and at most 0.01 below the other choice
+                L = wcag_luminance(*rgb_of(i))
+                cb, cw = (L + 0.05) / 0.05, 1.05 / (L + 0.05)
+                chosen, other = (cb, cw) if ln == "hsl(0,0.0%,0.0%)" else (cw, cb)
+                res.check(chosen >= 4.5, "textcolor-contrast-4.5", "cli:textcolor", inp, "luminance %.6f, text %s, contrast %.4f" % (L, ln, chosen))
+                res.check(other - chosen <= 0.01 + 1e-9, "textcolor-at-most-0.01-below-the-other-choice", "cli:textcolor", inp,
+                          "luminance %.6f, text %s has contrast %.4f, the other choice %.4f" % (L, ln, chosen, other))
 
 
 def c10(res, tier, seed, lib):
